@@ -176,9 +176,8 @@ class Interp:
             for st2, cur in self.ev(load, st, glob, owner, depth):
                 for st3, v in self.ev(s.value, st2, glob, owner, depth):
                     nv = ("binop", type(s.op).__name__, cur, v)
-                    if isinstance(s.target, ast.Subscript) or (isinstance(s.target, ast.Attribute)):
-                        # in-place mutation of the object held by the target
-                        st3.events.append(("mutate", cur, ("aug", type(s.op).__name__, v), st3.loops))
+                    # augmented assignment mutates the object held by the target in place when it is an array / list
+                    st3.events.append(("mutate", cur, ("aug", type(s.op).__name__, v), st3.loops))
                     out.extend(self.assign(s.target, nv, st3, glob, owner, depth, aug=True))
             return out
         if isinstance(s, ast.Return):
